@@ -174,7 +174,7 @@ func (p *planner) next(r *runner) *Step {
 func generate(w *lib.Writer, r *lib.Rand, tier string) {
 	nl, ns, lo, hi := 900, 600, 15, 60
 	if tier == "thorough" {
-		nl, ns, lo, hi = 20000, 12000, 15, 150
+		nl, ns, lo, hi = 12000, 8000, 15, 150
 	}
 	for i := 0; i < nl+ns; i++ {
 		g := r.Fork()
